@@ -302,8 +302,13 @@ fn policy_strategy(depth: u32, prof: TreeProfile, subnets: Vec<Net4>) -> BoxedSt
         if prof.addresses {
             (
                 proptest::option::weighted(0.35, uaddr()),
-                proptest::option::weighted(0.3, unet(24, 30, false)),
-                proptest::option::weighted(0.3, (uaddr(), 0u32..40).prop_map(|(s, n)| (s, Ipv4Addr::from((u32::from(s) + n).min(UBASE + USIZE - 1))))),
+                // incl. subnets without host addresses (/31, /32) and ranges that end before they
+                // start: a policy whose own address set is empty gives its clients nothing
+                proptest::option::weighted(0.3, prop_oneof![8 => unet(24, 30, false), 1 => unet(31, 32, false)]),
+                proptest::option::weighted(0.3, prop_oneof![
+                    9 => (uaddr(), 0u32..40).prop_map(|(s, n)| (s, Ipv4Addr::from((u32::from(s) + n).min(UBASE + USIZE - 1)))),
+                    1 => (uaddr(), 1u32..5).prop_map(|(s, n)| (s, Ipv4Addr::from(u32::from(s).saturating_sub(n).max(UBASE)))),
+                ]),
             )
                 .boxed()
         } else {
